@@ -59,6 +59,11 @@ H(h_div_se) { E v = mk(); double c = verif_nondet_real(); ASSUME(v.value() != 0.
               FORI CEQ(R(i) * v.value() * v.value(), -c * Vd(i)); }
 H(h_diveq_ee) { E u = mk(), v = mk(); ASSUME(v.value() != 0.0); E r = u; r /= v; CEQ(r.value() * v.value(), u.value());
               FORI CEQ(R(i) * v.value() * v.value(), U(i) * v.value() - u.value() * Vd(i)); }
+// compound assignment with the object itself as right-hand side (x *= x, x /= x, x += x, x -= x): the operand must be read before it is overwritten
+H(h_self_mul) { E u = mk(); E r = u; r *= r; CEQ(r.value(), u.value() * u.value()); FORI CEQ(R(i), 2 * u.value() * U(i)); }
+H(h_self_div) { E u = mk(); ASSUME(u.value() != 0.0); E r = u; r /= r; CEQ(r.value(), 1.0); FORI CEQ(R(i), 0.0); }
+H(h_self_add) { E u = mk(); E r = u; r += r; CEQ(r.value(), 2 * u.value()); FORI CEQ(R(i), 2 * U(i)); }
+H(h_self_sub) { E u = mk(); E r = u; r -= r; CEQ(r.value(), 0.0); FORI CEQ(R(i), 0.0); }
 H(h_diveq_es) { E u = mk(); double c = verif_nondet_real(); ASSUME(c != 0.0); E r = u; r /= c; CEQ(r.value() * c, u.value()); FORI CEQ(R(i) * c, U(i)); }
 
 // ---- comparisons (on values)
